@@ -48,15 +48,18 @@ CONSTANTS MaxOps,      \* bound on the number of public operations (BFS level)
           Dump,        \* TRUE: print one history per explored transition (spec -> code)
           BaseNames,   \* names the user passes explicitly
           BadNames,    \* names that util.is_valid_name refuses
+          NFiles,      \* how many of the saved models the model checker reads
           EditKinds,   \* which abstract edits the model checker enumerates ({"defs","value"})
           Linking      \* TRUE: references between models and evaluations are enumerated
 
 VARIABLES S,      \* algorithm-layer state (expected state when validating a trace)
+          n,      \* number of public operations so far (model checking)
+          bad,    \* labels of the C19 predicates that the last transition violated
           gh,     \* ghost: [open, links]
           last,   \* last public operation with its outcome
           hist,   \* history (only when Dump)
           tid, l, viol, pobs   \* trace validation: trace, next event, labels, previous observation
-vars == <<S, gh, last, hist, tid, l, viol, pobs>>
+vars == <<S, n, bad, gh, last, hist, tid, l, viol, pobs>>
 
 Traces == JsonDeserialize(IOEnv.TRACE_FILE)
 
@@ -291,20 +294,29 @@ Op(op, name, m, t, file, ro, kind) ==
     [op |-> op, name |-> name, m |-> m, t |-> t, file |-> file, ro |-> ro, kind |-> kind]
 
 Init == /\ S = InitState(0, 0)
+        /\ n = 0 /\ bad = {}
         /\ gh = [open |-> {}, links |-> {}]
         /\ last = NoOp
         /\ hist = <<>>
         /\ tid = 0 /\ l = 0 /\ viol = {} /\ pobs = <<>>
 
+\* one public operation = one step.  Everything is bound to concrete values once
+\* (\E over singleton sets) and the property layer is evaluated on
+\* (observation before, ghost, operation, observation after) of THIS transition.
 Do(o) ==
-    LET r == Apply(S, o)
-        e == [op |-> o.op, name |-> o.name, m |-> o.m, t |-> o.t, file |-> o.file,
-              ro |-> o.ro, kind |-> o.kind, res |-> r.r, new |-> r.id]
-    IN /\ S' = r.s
-       /\ last' = e
-       /\ gh' = GhostAfter(gh, e)
-       /\ hist' = IF Dump THEN Append(hist, e) ELSE hist
-       /\ UNCHANGED <<tid, l, viol, pobs>>
+    /\ n < MaxOps
+    /\ \E r \in {Apply(S, o)} :
+       \E e \in {[op |-> o.op, name |-> o.name, m |-> o.m, t |-> o.t, file |-> o.file,
+                  ro |-> o.ro, kind |-> o.kind, res |-> r.r, new |-> r.id]} :
+       \E g2 \in {GhostAfter(gh, e)} :
+       \E po \in {Obs(S)} : \E o2 \in {Obs(r.s)} :
+          /\ S' = r.s
+          /\ n' = n + 1
+          /\ last' = e
+          /\ gh' = g2
+          /\ bad' = PropLabels(po, gh, g2, e, o2)
+          /\ hist' = IF Dump THEN Append(hist, e) ELSE hist
+          /\ UNCHANGED <<tid, l, viol, pobs>>
 
 CanCreate == Len(S.nm) < MaxModels
 GivenNames == BaseNames \cup BadNames \cup {""}        \* "" : no name given
@@ -318,12 +330,10 @@ Xref(m, t)        == m # t /\ t \notin S.into[m] /\ Do(Op("xref", "", m, t, 0, F
 Eval(m)           == Do(Op("eval", "", m, 0, 0, FALSE, ""))
 
 Next ==
-  /\ TLCGet("level") <= MaxOps       \* (level of the current state: 1 = initial)
-  /\
-    \/ \E n \in GivenNames : NewModel(n)
-    \/ \E k \in 1..Len(StoredMC), n \in GivenNames : ReadModel(k, n)
-    \/ \E m \in gh.open, n \in BaseNames \cup BadNames \cup DOMAIN S.reg, ro \in BOOLEAN :
-          Rename(m, n, ro)
+    \/ \E nn \in GivenNames : NewModel(nn)
+    \/ \E k \in 1..NFiles, nn \in GivenNames : ReadModel(k, nn)
+    \/ \E m \in gh.open, nn \in BaseNames \cup BadNames \cup DOMAIN S.reg, ro \in BOOLEAN :
+          Rename(m, nn, ro)
     \/ \E m \in gh.open : Close(m)
     \/ \E m \in gh.open, kind \in EditKinds : Edit(m, kind)
     \/ Linking /\ \E m \in gh.open, t \in gh.open : Xref(m, t)
@@ -337,20 +347,16 @@ Spec == Init /\ [][Next]_vars
 \* (their last name, definitions, values): no operation is made on a closed
 \* model and nothing in the registry depends on them.
 OpenOnly(f, dflt) == [i \in DOMAIN f |-> IF i \in gh.open THEN f[i] ELSE dflt]
-View == <<S.reg, OpenOnly(S.nm, ""), S.mctr, S.bctr, OpenOnly(S.d, 0), OpenOnly(S.v, 0),
+View == <<n, bad, S.reg, OpenOnly(S.nm, ""), S.mctr, S.bctr, OpenOnly(S.d, 0), OpenOnly(S.v, 0),
           S.into, S.panic, gh>>
 
-\* state predicates
-Inv_C19_NamesUniqueAndCurrent == NamesUniqueAndCurrent(Obs(S), gh)
-Inv_C19_HandlesFollow         == HandlesFollow(Obs(S), gh)
-Inv_Algo_NoPanic              == ~S.panic
-\* action properties (pre state, operation, post state)
-Act_C19_NoModelDropped ==
-    [][NoModelDropped(Obs(S), gh', last', Obs(S'))]_vars
-Act_C19_CloseRemovesExactlyOne ==
-    [][CloseRemovesExactlyOne(Obs(S), last', Obs(S'))]_vars
-Act_C19_Isolation ==
-    [][Isolation(Obs(S), gh, last', Obs(S'))]_vars
+\* one INVARIANT per predicate of the property layer
+Inv_C19_NamesUniqueAndCurrent  == "C19.NamesUniqueAndCurrent"  \notin bad
+Inv_C19_HandlesFollow          == "C19.HandlesFollow"          \notin bad
+Inv_C19_NoModelDropped         == "C19.NoModelDropped"         \notin bad
+Inv_C19_CloseRemovesExactlyOne == "C19.CloseRemovesExactlyOne" \notin bad
+Inv_C19_Isolation              == "C19.Isolation"              \notin bad
+Inv_Algo_NoPanic               == ~S.panic
 
 \* spec -> code: print the history of every explored transition
 DumpHist == (Dump /\ Len(hist) > 0) => PrintT(<<"MBT", ToJson(hist)>>)
@@ -400,7 +406,7 @@ TInit ==
     /\ S = InitState(Traces[tid].hdr.mctr, Traces[tid].hdr.bctr)
     /\ gh = [open |-> {}, links |-> {}]
     /\ pobs = ObsOfPost(Traces[tid].hdr.post)
-    /\ last = NoOp /\ hist = <<>>
+    /\ last = NoOp /\ hist = <<>> /\ n = 0 /\ bad = {}
     /\ TLCSet(tid, <<0, {}>>)
 
 TNext ==
@@ -420,7 +426,7 @@ TNext ==
           /\ gh' = g2
           /\ pobs' = o
     /\ l' = l + 1
-    /\ UNCHANGED <<tid, last, hist>>
+    /\ UNCHANGED <<tid, last, hist, n, bad>>
 
 TSpec == TInit /\ [][TNext]_vars
 
